@@ -384,8 +384,16 @@ class Uri(six.text_type):
 
     def __eq__(self, other):
         if not isinstance(other, Uri):
+            # Another kind of string with the same text is a different value;
+            # returning NotImplemented here would fall back on str.__eq__.
+            if isinstance(other, six.string_types):
+                return False
             return NotImplemented
         return super(Uri, self).__eq__(other)
+
+    def __ne__(self, other):
+        result = self.__eq__(other)
+        return result if result is NotImplemented else not result
 
 
 class Bin(six.text_type):
@@ -401,8 +409,16 @@ class Bin(six.text_type):
 
     def __eq__(self, other):
         if not isinstance(other, Bin):
+            # Another kind of string with the same text is a different value;
+            # returning NotImplemented here would fall back on str.__eq__.
+            if isinstance(other, six.string_types):
+                return False
             return NotImplemented
         return super(Bin, self).__eq__(other)
+
+    def __ne__(self, other):
+        result = self.__eq__(other)
+        return result if result is NotImplemented else not result
 
 
 class XStr(object):
